@@ -27,7 +27,7 @@ MANIFEST = {
             "clauses (wrapper around engine_stack._verif_shuffle) and hands it to the model. "
             "Trusted: harness, hook in engine_stack.py (add-only, off by default). Known finding F1 (false NegativeCycle, "
             "schedule dependent) is reported as KNOWN-FINDING. Second stream (harness/explore_util.py): ~1250 small cyclic "
-            "programs and the must-reject ones of ~400 programs with loops through negation under 3 orders each, engine "
+            "programs and the must-reject ones (~170) of 400 programs with loops through negation under 3 orders each, engine "
             "outcome vs Sem with the numbers computed by enumeration of the ground formula (candidates confirmed with the full "
             "pipeline before they are reported); pinned corpus corpus/C03/schedules.json under all schedules.",
     "design_ref": "DESIGN.md §6 C03, §7",
@@ -61,8 +61,8 @@ def extra_streams(ctx):
     2. many SMALL cyclic programs (mutual recursion through 2-4 predicates, several clauses per predicate, body disjunctions,
        goals called again inside an open cycle) under the unpermuted order + 2 schedules each, cheap comparison (engine
        outcome vs `Sem`, numbers by enumeration of the ground formula, every candidate confirmed with the full pipeline);
-    3. small programs with a loop through negation that the specification classifies as must-reject (outside the region of
-       known finding C02-missed-negative-cycle), same schedules: answered under ANY schedule = the errors depend on the order.
+    3. small programs with a loop through negation that the specification classifies as must-reject and that have no positive
+       cycle (explore_util.reject_region), same schedules: answered under ANY schedule = the errors depend on the order.
     Returns True if a --replay file of one of these streams has been handled."""
     import explore_util as X
     drv = ctx.driver("Drivers.Spine")
@@ -76,9 +76,8 @@ def extra_streams(ctx):
     rng = ctx.sub_rng("cyclic-stream")
     progs = [X.gen_tight(rng) for _ in range(ctx.budget(1100, 12000))] + [X.gen_cyclic(rng) for _ in range(ctx.budget(150, 3000))]
     X.cheap_stream(ctx, drv, progs, [rng.randrange(1 << 30) for _ in progs], few_variants, "small-cyclic")
-    from props import c02
     rng = ctx.sub_rng("negloop-stream")
-    progs = [X.gen_negloop(rng) for _ in range(ctx.budget(250, 4000))] + [c02.gen_prop_loops(rng) for _ in range(ctx.budget(150, 3000))]
+    progs = [X.gen_negloop(rng) for _ in range(ctx.budget(400, 6000))]
     X.cheap_stream(ctx, drv, progs, [rng.randrange(1 << 30) for _ in progs], few_variants, "negative-loop", cls="reject")
     return False
 
